@@ -172,7 +172,9 @@ class C12(Prop):
   trusted_base = [
       'harness/c11_geno.py reference of members (case generation) and swap_sites (which node Swap picks)',
       'Swap is driven by a scripted random source (shuffle = identity, sample = recorded pair)',
-      'from_dict / verbose JSON / dna[...] lookups are checked by the oracle on the real code only (not modelled)',
+      'from_dict is modelled (dictionary look-ups by id / name with list popping, candidate_index incl. its two regular '
+      'expressions for ASCII digits) and compared on the 30 option triples; verbose JSON and dna[...] lookups are checked '
+      'by the oracle on the real code only',
       'modelled, not verified: to_numbers, from_numbers, compact form and its parser, use_spec beliefs, ids, to_dict '
       '(the 30 to_dict option triples and the node bindings after every producer step are compared verbatim; '
       'no Lean theorem about to_dict / from_dict)',
@@ -346,6 +348,7 @@ class C12(Prop):
       dd = d.to_dict(key_type=kt, value_type=vt, multi_choice_key=mk)
       back.append(attempt(lambda: geno.DNA.from_dict(dict(dd), spec, use_ints_as_literals=(vt == 'literal'))))
     obs['from_dict'] = back
+    out['from_dicts'] = [None if isinstance(x, str) else x for x in back[:len(GRID)]]
     obs['spec_keys_equal_id_keys'] = all(
         canon_dict(d.to_dict(key_type='dna_spec', value_type=vt, multi_choice_key=mk)) ==
         canon_dict(d.to_dict(key_type='id', value_type=vt, multi_choice_key=mk))
@@ -466,6 +469,8 @@ class C12(Prop):
       if db.get('dicts') is not None:
         for (kt, vt, mk), x, y in zip(GRID, da['dicts'], db['dicts']):
           chk('dna%d.to_dict(%s,%s,%s)' % (i, kt, vt, mk), x, sort_dict(y))
+        for (kt, vt, mk), x, y in zip(GRID, da['from_dicts'], db.get('from_dicts') or []):
+          chk('dna%d.from_dict(to_dict(%s,%s,%s))' % (i, kt, vt, mk), x, y)
     for i, (ca, cb) in enumerate(zip(a['chains'], b['chains'])):
       for j, (sa, sb) in enumerate(zip(ca, cb)):
         if sa is None or sb is None:
